@@ -29,6 +29,8 @@ pub enum PolicyCfg {
     DelayExpiredFsync,
     /// OnDelay(1ns, Flush), clock advanced before every second op
     DelayAltFlush,
+    /// as DelayAltFlush with the other parity
+    DelayAltFlush1,
 }
 
 impl PolicyCfg {
@@ -49,7 +51,7 @@ impl PolicyCfg {
                 interval: never,
                 action: PersistAction::FlushAndFsync,
             },
-            PolicyCfg::DelayExpiredFlush | PolicyCfg::DelayAltFlush => PersistPolicy::OnDelay {
+            PolicyCfg::DelayExpiredFlush | PolicyCfg::DelayAltFlush | PolicyCfg::DelayAltFlush1 => PersistPolicy::OnDelay {
                 interval: short,
                 action: PersistAction::Flush,
             },
@@ -81,6 +83,7 @@ impl PolicyCfg {
             PolicyCfg::DelayExpiredFlush => "OnDelay(expired,Flush)",
             PolicyCfg::DelayExpiredFsync => "OnDelay(expired,FlushAndFsync)",
             PolicyCfg::DelayAltFlush => "OnDelay(alternating,Flush)",
+            PolicyCfg::DelayAltFlush1 => "OnDelay(alternating from the 2nd op,Flush)",
         }
     }
 }
@@ -209,6 +212,11 @@ impl Subject {
             }
             PolicyCfg::DelayAltFlush => {
                 if self.op_count % 2 == 0 {
+                    vh::set_clock_ns(vh::clock_ns() + 10);
+                }
+            }
+            PolicyCfg::DelayAltFlush1 => {
+                if self.op_count % 2 == 1 {
                     vh::set_clock_ns(vh::clock_ns() + 10);
                 }
             }
